@@ -40,6 +40,9 @@ EXPLANATION = ('Props/C14.v: for every n the model Hessian is the Jacobian of th
                'symmetry/PSD lemmas. InformationEntropy, TemporalVariance and CobbDouglas (numerical Hessians in the source): closed-form '
                'Hessians over the reals (Model/Trans.v) proved to be the Jacobians of the closed-form gradients and symmetric; the '
                'implementation is compared with them by interval arithmetic inside Coq (second correspondence).')
+TRUSTED_EXTRA = ['second correspondence (InformationEntropy/TemporalVariance/CobbDouglas): the Interval library\'s `interval` tactic '
+                 '(reflexive interval arithmetic over Flocq big-integer floats at 90 bits, checked by the kernel through vm_compute); the '
+                 'generated case files are evaluated by coqc and discarded; tolerances 1e-9 (cost) and 1e-6 (numdifftools derivatives)']
 CLASSES = lg.CLASSES
 
 
